@@ -3,6 +3,7 @@ import PromProofs.QuantileFraction
 import PromProofs.QuantileSort
 import PromProofs.QuantileNativeMono
 import PromProofs.QuantileFractionMono
+import PromProofs.QuantileFractionExt
 /-
   C32 — Histogram query functions agree with the histograms they describe.
 
@@ -482,6 +483,21 @@ theorem fraction_in_unit_and_mono : fraction_in_unit_and_mono_full := by
   intro fb h C FBm lo1 up1 lo2 up2 h1 h2 h3
   obtain ⟨L, N, R, _⟩ := C.rhist
   exact fraction_core fb R FBm lo1 up1 lo2 up2 h1 h2 h3
+
+/-- The same with bounds in the EXTENDED reals — `histogram_fraction(-Inf, x, …)`, `(x, +Inf, …)`, `(-Inf, +Inf, …)`:
+    for all non-NaN bounds `lo2 ≤ lo1 ≤ up1 ≤ up2` (order of `XR.le`) both fractions are numbers in [0,1] and the
+    fraction of the larger interval is at least the fraction of the smaller one. -/
+theorem fraction_in_unit_and_mono_ext (fb : XR → XR → XR → XR) (h : NHist XR) (C : ConsistentHist h)
+    (FBm : ∀ l u v1 v2 : Rat, l < v1 → v1 ≤ v2 → v2 < u → ∃ f1 f2, fb (.fin l) (.fin u) (.fin v1) = .fin f1 ∧
+        fb (.fin l) (.fin u) (.fin v2) = .fin f2 ∧ 0 ≤ f1 ∧ f1 ≤ f2 ∧ f2 ≤ 1)
+    (lo1 up1 lo2 up2 : XR) (n1 : lo1 ≠ .nan) (n2 : up1 ≠ .nan) (n3 : lo2 ≠ .nan) (n4 : up2 ≠ .nan)
+    (h1 : XR.le lo2 lo1 = true) (h2 : XR.le lo1 up1 = true) (h3 : XR.le up1 up2 = true) :
+    ∃ f1 f2, histogramFraction fb lo1 up1 h = .fin f1 ∧ histogramFraction fb lo2 up2 h = .fin f2 ∧
+      0 ≤ f1 ∧ f1 ≤ f2 ∧ f2 ≤ 1 := by
+  obtain ⟨L, N, R, _⟩ := C.rhist
+  exact fraction_coreX fb R FBm lo1 up1 lo2 up2 n1 n2 n3 n4 h1 h2 h3
+
+example : XR.le .ninf (.fin (-1)) = true ∧ XR.le (.fin (-1)) (.fin 3) = true ∧ XR.le (.fin 3) .pinf = true := by decide +kernel
 
 /-- the linear in-bucket fraction satisfies the hypothesis on `fb`; `exHist` (above) is a consistent histogram -/
 example : ∀ l u v1 v2 : Rat, l < v1 → v1 ≤ v2 → v2 < u →
